@@ -103,14 +103,17 @@ func (p *c03) rot(ctx core.Ctx) int { return ctx.Pick(8, len(c03Truthy)) }
 func (p *c03) Plan(ctx core.Ctx) int {
 	nChain := len(p.shapes(ctx)) * len(c03Placements) * 2 * p.rot(ctx)
 	nUni := (len(c03Falsy) + len(c03Truthy) + len(c03Undecided) + len(c03UniformOnly)) * 9
-	return nChain + nUni + len(c03LazyCases())
+	return nChain + nUni + len(c03LazyCases()) + c03NCompound
 }
 
 func (p *c03) Gen(ctx core.Ctx, i int) any {
 	shapes := p.shapes(ctx)
 	rot := p.rot(ctx)
 	nChain := len(shapes) * len(c03Placements) * 2 * rot
-	if nUni := (len(c03Falsy) + len(c03Truthy) + len(c03Undecided) + len(c03UniformOnly)) * 9; i >= nChain+nUni {
+	if nUni := (len(c03Falsy) + len(c03Truthy) + len(c03Undecided) + len(c03UniformOnly)) * 9; i >= nChain+nUni+len(c03LazyCases()) {
+		j := i - nChain - nUni - len(c03LazyCases())
+		return c03Case{Part: "compound", K: j / 8, Path: fmt.Sprintf("%03b", j%8)}
+	} else if i >= nChain+nUni {
 		l := c03LazyCases()[i-nChain-nUni]
 		return c03Case{Part: "lazy", Lazy: &l}
 	}
@@ -231,6 +234,11 @@ func (p *c03) Exec(ctx core.Ctx, cc any) core.Obs {
 		return p.execUniform(c)
 	}
 	var o core.Obs
+	if c.Part == "compound" {
+		var o core.Obs
+		c03ExecCompound(c, &o)
+		return o
+	}
 	if c.Part == "lazy" && c.Lazy != nil {
 		c03ExecLazy(c, &o)
 		return o
